@@ -21,7 +21,7 @@ class KGen:
     def __init__(self, rng: random.Random, weights: dict[str, float] | None = None, *,
                  malformed: float = 0.06, wrong_state: float = 0.08, max_ctx: int = 8, max_tasks: int = 3,
                  td_depth: int = 2, gated: float = 0.35, exc_end: float = 0.4, many_callbacks: bool = False,
-                 p_cancel: float = 0.0, p_pair: float = 0.25) -> None:
+                 p_cancel: float = 0.0, p_pair: float = 0.25, p_manual: float = 0.0) -> None:
         self.rng = rng
         self.w = dict(DEFAULT_WEIGHTS)
         if weights:
@@ -36,6 +36,7 @@ class KGen:
         self.p_cancel = p_cancel
         self.queue: list[dict[str, Any]] = []
         self.p_pair = p_pair
+        self.p_manual = p_manual
         self.n_pairs = 0
         self.many_callbacks = many_callbacks
         self.ctxs: dict[int, dict[str, Any]] = {}
@@ -54,7 +55,7 @@ class KGen:
             return None
         if rng.random() < self.wrong_state:
             return rng.choice(list(self.ctxs))
-        good = [c for c, x in self.ctxs.items() if x["state"] in want]
+        good = [c for c, x in self.ctxs.items() if x["state"] in want or (x["state"] == "leaked" and "open" in want)]
         return rng.choice(good) if good else None
 
     def types(self) -> list[int]:
@@ -93,8 +94,11 @@ class KGen:
                 regs.append(self.cb(depth - 1))
         cid = self.next_cb
         self.next_cb += 1
-        return {"id": cid, "pass": rng.random() < 0.5, "async": rng.random() < 0.4, "body": body, "regs": regs,
-                "raises": self.exc() if rng.random() < 0.3 else None}
+        cb = {"id": cid, "pass": rng.random() < 0.5, "async": rng.random() < 0.4, "body": body, "regs": regs,
+              "raises": self.exc() if rng.random() < 0.3 else None}
+        if cb["pass"] and cb["raises"] is None and rng.random() < 0.25:
+            cb["reraise"] = True        # raises the very exception object it is handed (nothing after a clean exit)
+        return cb
 
     def task(self) -> int:
         return self.rng.choice(list(self.stacks))
@@ -135,6 +139,12 @@ class KGen:
                 x["token"] = self.cur.get(t)
                 self.stacks[t].append(c)
                 self.cur[t] = c
+                if x["parent"] is not None and rng.random() < self.p_manual:
+                    # entered by hand and never left (the block around it, if any, is left while it is still
+                    # this task's current context)
+                    self.stacks[t].pop()
+                    x["state"] = "leaked"
+                    return {"op": "enter", "t": t, "c": c, "manual": True}
                 if rng.random() < self.p_cancel * 0.4:
                     # entered while a cancellation is already pending: the block is left at once, by
                     # that cancellation (delivered at its first checkpoint)
@@ -371,6 +381,32 @@ class KGen:
         return ops
 
 
+def resolve_reraise(ops: list[dict[str, Any]]) -> list[dict[str, Any]]:
+    """Callbacks that re-raise the exception they are handed: with the whole operation list known, what they raise
+    is the way their context's block ends (blocks still open at the end are left normally). Returns the list with
+    `raises` filled in accordingly; the implementation side keeps the `reraise` flag."""
+    import copy
+
+    ends: dict[int, dict[str, Any]] = {}
+    for op in ops:
+        if op["op"] == "exit" and op["c"] not in ends:
+            ends[op["c"]] = op["end"]
+
+    def fix(cb: dict[str, Any], c: int) -> None:
+        if cb.get("reraise") and cb["pass"]:
+            end = ends.get(c, {"k": "ret"})
+            cb["raises"] = None if end["k"] == "ret" else dict(end)
+        for r in cb["regs"]:
+            fix(r, c)
+
+    out = copy.deepcopy(ops)
+    for op in out:
+        for key in ("cb", "td"):
+            if isinstance(op.get(key), dict):
+                fix(op[key], op["c"])
+    return out
+
+
 def valid_ops(ops: list[dict[str, Any]]) -> bool:
     """Is this operation list one the director can execute faithfully (used by the shrinker)?"""
     ctxs: dict[int, dict[str, Any]] = {}
@@ -419,7 +455,12 @@ def valid_ops(ops: list[dict[str, Any]]) -> bool:
         if op.get("via") in ("shortcut", "ctxtd") and cur[t] != c:
             return False
         if k == "enter":
-            if ctxs[c]["state"] == "inactive":
+            if op.get("manual"):
+                if ctxs[c]["state"] != "inactive" or ctxs[c]["parent"] is None:
+                    return False
+                ctxs[c]["state"] = "leaked"
+                cur[t] = c
+            elif ctxs[c]["state"] == "inactive":
                 ctxs[c]["state"] = "open"
                 ctxs[c]["token"] = cur[t]
                 stacks[t].append(c)
